@@ -635,6 +635,20 @@ class FixedArray
     bool isMaskedReference() const {return _indices.get() != 0;}
     size_t unmaskedLength() const {return _unmaskedLength;}
 
+    // The index table of a masked reference (null otherwise).
+    const boost::shared_array<size_t> & maskIndices() const {return _indices;}
+
+    // Select the same elements as 'other' does: used by views of one
+    // component of a masked array (v[mask].x), which address the unmasked
+    // storage and must go through the same index table.  A no-op when
+    // 'other' is not a masked reference.
+    template <class S>
+    void shareMaskOf (const FixedArray<S> &other)
+    {
+        _indices        = other.maskIndices();
+        _unmaskedLength = other.unmaskedLength();
+    }
+
     // Conversion of indices to raw pointer indices.
     // This should only be called when this is a masked reference.
     // No safety checks done for performance.
